@@ -255,7 +255,7 @@ PickSlot ==
 
 \* B => A, case export.  The evaluation of a program's cases is a step of its own so that the worker that takes
 \* the program state from the queue does it (all workers busy), not the worker that generated the state.
-Cases(G) == LET I == Info(G) IN {[ar |-> a] : a \in Args(G)}
+Cases(G) == LET I == Info(G) IN {LET b == BResult(I, a) IN [ar |-> a, b |-> b, bok |-> Allowed(I, a, b)] : a \in Args(G)}
 Evaluate ==
   /\ stage = "prog" /\ stage' = "done" /\ UNCHANGED g
   /\ out' = Cases(g.G)
